@@ -75,6 +75,34 @@ def confHandlingOf : String → Option ConfHandling
   | "shared" => some .shared
   | _ => none
 
+def poolHandlingOf : String → Option PoolHandling
+  | "copied" => some .copied
+  | "shared" => some .shared
+  | _ => none
+
+/-- CA names `1.2.3`, `-` = none -/
+def caListOf (s : String) : Option (List CA) :=
+  if s = "-" then some [] else (s.splitOn ".").mapM natOf
+
+/-- `b,<insecure>,<extra CAs>` | `p,<instance>,<signer>` -/
+def pEventOf (s : String) : Option PEvent :=
+  match splitList s with
+  | ["b", ins, cas] =>
+    match boolOf ins, caListOf cas with
+    | some ins, some cas => some (.build ⟨cas, ins⟩)
+    | _, _ => none
+  | ["p", i, sg] =>
+    match natOf i, natOf sg with
+    | some i, some sg => some (.probe i sg)
+    | _, _ => none
+  | _ => none
+
+def pOutStr : POut → String
+  | .built => "built"
+  | .accept => "accept"
+  | .refuse => "refuse"
+  | .noInstance => "no-instance"
+
 def evOutStr : EvOut → String
   | .tunnelled => "tunnelled"
   | .origin n o => s!"{outcomeStr o}/{hexOfBytes n}"
@@ -88,6 +116,11 @@ def handle : List String → String
     | some v, some up, some allow, some ins, some evs =>
       joinList ((runHist v up x509ish allow ins Inst.fresh evs).map evOutStr)
     | _, _, _, _, _ => "bad-op"
+  -- trust <copied|shared> <system CAs> <event;event;…>  →  per event: built | accept | refuse | no-instance
+  | ["trust", v, sys, evs] =>
+    match poolHandlingOf v, caListOf sys, (splitList2 evs).mapM pEventOf with
+    | some v, some sys, some evs => joinList ((runProc v sys (Proc.start sys) evs).map pOutStr)
+    | _, _, _ => "bad-op"
   -- name <sni> <connect host>  →  ok <name> <ip|dns>
   | ["name", sni, host] =>
     match bytesOfHex sni, bytesOfHex host with
